@@ -1474,3 +1474,35 @@ def _owner_literals(P, fn, op, depth):
         else:
             out.add(None)
     return out
+
+
+@rule("C06.R5", floor=1)
+def c06_r5(ctx):
+    """An entry taken out of the cache stays out for the rest of the rule's handling: in the
+    function that handles one rule, nothing that is reachable *after* the call that resolves the
+    targets (the only place that restores from the cache) moves a file into the cache.  The
+    loser of a race for a shared entry decides between "gone" and "malfunction" by looking at
+    the entry again after its failed rename; an entry that reappears (a recovered target put
+    back before the command runs) turns a lost race into a hard error, in one interleaving
+    only."""
+    W = WorkRoles(ctx.P)
+    h = ctx.P.fns.get("work::handle_rule_node")
+    ctx.need(h is not None, "the function handling one rule")
+    ctx.saw(h)
+
+    def reaches(c, names):
+        tg = ctx.P.local_targets(c)
+        fns = ctx.P.reachable_fns(tg) if tg else set()
+        return any(ctx.P.fns[x].calls_to(n) for x in fns for n in names) or any(c.path == n for n in names)
+    restore = ("cache::SysCache::<SystemType>::restore_file",)
+    backup = ("cache::SysCache::<SystemType>::back_up_file_with_ticket", "cache::SysCache::<SystemType>::back_up_file")
+    rs = [c for c in h.calls if reaches(c, restore)]
+    ctx.need(rs, "the call in %s that can restore from the cache" % h.id)
+    for r in rs:
+        ctx.inst("restoring call %s" % r.path, r.where)
+        after = set(h.reach([r.bb])) - {r.bb}
+        bad = [c for c in h.calls if c.bb in after and c.bb != r.bb and reaches(c, backup)]
+        if bad:
+            ctx.viol((h.id, "backup-after-restore"), "after the targets were resolved (and possibly restored from the cache) a file is moved into the cache again (%s): an entry another rule's thread has just seen vanish reappears, and that thread's re-test after its failed rename answers `malfunction` instead of `not there`" % bad[0].path, bad[0].where)
+        else:
+            ctx.ok()
